@@ -132,8 +132,13 @@ fn chord_polygon(k: usize, ph: usize) -> Vec<Point2> {
 
 fn judge_chords(case: &Case, l: &mut Local) {
     let mk = || serde_json::to_value(case).unwrap();
-    let pts = chord_polygon(case.size, case.origin_step);
-    let curve = match Curve2::from_points(&pts, 1e-9, false) {
+    // length unit: the same polygon in metres or in microns (edges of a few tenths of a micron)
+    let unit = if case.verts.first().and_then(|x| x.first()).copied().unwrap_or(0) < 0 { 1e-6 } else { 1.0 };
+    let pts: Vec<Point2> = chord_polygon(case.size, case.origin_step).iter().map(|p| Point2::from(p.coords * unit)).collect();
+    if unit != 1.0 {
+        l.bucket("polygon with edges below a micron");
+    }
+    let curve = match Curve2::from_points(&pts, 1e-9 * unit, false) {
         Ok(c) => c,
         Err(_) => return,
     };
@@ -147,9 +152,11 @@ fn judge_chords(case: &Case, l: &mut Local) {
             if i == j {
                 continue;
             }
-            for s in [0.0, -0.37, 0.5, 1.7] {
+            for s in [0.0, -0.37, 0.5, 1.7, 9.0] {
                 let d: Vector2 = v[j] - v[i];
-                let o = v[i] + d * s;
+                // the last variant is shifted sideways by 1.3% of the chord: a line in general position
+                let side_shift = if s == 9.0 { Vector2::new(-d.y, d.x) * 0.013 } else { Vector2::zeros() };
+                let o = v[i] + d * (if s == 9.0 { 0.21 } else { s }) + side_shift;
                 let ray = Ray::new(o, d);
                 l.eval();
                 let fast = match guarded(|| curve.ray_intersections(&ray)) {
@@ -159,6 +166,23 @@ fn judge_chords(case: &Case, l: &mut Local) {
                         continue;
                     }
                 };
+                // independent closed form: no crossing in the interior of an edge is missed, every reported one is real
+                let mut complete = true;
+                for e in 0..ne {
+                    if let Some((tc, sc)) = closed_form(&o, &d, &v[e], &v[e + 1]) {
+                        if sc > 1e-6 && sc < 1.0 - 1e-6 {
+                            complete &= fast.iter().any(|b| (b.0 - tc).abs() <= 1e-7 * (1.0 + tc.abs()));
+                        }
+                    }
+                }
+                l.check("no interior crossing of any edge is missed", "inexact polygon", complete, mk, || format!("unit {:e}, line through vertices {} and {} variant {}: {:?}", unit, i, j, s, fast));
+                let sound = fast.iter().all(|(t, e)| {
+                    let p = ray.point_at(*t);
+                    let ab = v[*e + 1] - v[*e];
+                    let u = ((p - v[*e]).dot(&ab) / ab.norm_squared()).clamp(0.0, 1.0);
+                    (v[*e] + ab * u - p).norm() <= 1e-7 * unit * 3.0
+                });
+                l.check("every reported parameter gives a point on the named edge", "inexact polygon", sound, mk, || format!("unit {:e}: {:?}", unit, fast));
                 let mut naive: Vec<(f64, usize)> = (0..ne).filter_map(|e| ray_intersect_with_edge(&pl, &ray, e).map(|t| (t, e))).collect();
                 naive.sort_by(|a, b| a.0.partial_cmp(&b.0).unwrap());
                 naive.dedup_by(|a, b| (a.0 - b.0).abs() < 1e-8);
@@ -401,6 +425,9 @@ pub fn cases(tier: Tier) -> Vec<Case> {
     for k in 5..=tier.pick(24, 40) {
         for ph in 0..tier.pick(3, 5) {
             out.push(Case { verts: vec![], family: "chords".into(), size: k, origin_step: ph });
+            if k % 4 == 1 {
+                out.push(Case { verts: vec![vec![-6]], family: "chords".into(), size: k, origin_step: ph });
+            }
         }
     }
     for fam in gen::LARGE_FAMILIES {
@@ -415,7 +442,7 @@ pub fn run(tier: Tier) -> i32 {
     let mut cx = Ctx::new("C06", tier, "exploration");
     cx.rule = "every vertex sequence over the 4x4 lattice up to the length bound, and 7 structured large families x 15 sizes (5..5000 edges: every QBVH occupancy and depth), x origins on a grid (inside, outside, behind, on vertices) x 14 directions (axis-parallel, zero components, non-unit, both signs, nearly parallel to edges); plus wavy polygons of 5..24 (thorough 40) inexact vertices x 3 (5) placements against every line through two of their vertices from 4 origins; oracle = the property's own definition (sort+dedup of the per-edge routine over every edge) plus an independent closed form. distinct = distinct polylines".into();
     cx.bounds = json!({"lattice": 4, "seq_len": tier.pick(4, 5), "origin_subsampling_longest": tier.pick(3, 5), "directions": DIRS.len(), "large_sizes": gen::LARGE_SIZES});
-    cx.require(&["line exactly through an end vertex", "lattice polyline", "structured large polyline", "line misses", "two crossings", "other crossing count", "axis-parallel line", "large outline with shallow lines", "polygon with inexact vertices against lines through two of them"]);
+    cx.require(&["line exactly through an end vertex", "lattice polyline", "structured large polyline", "line misses", "two crossings", "other crossing count", "axis-parallel line", "large outline with shallow lines", "polygon with inexact vertices against lines through two of them", "polygon with edges below a micron"]);
     cx.assume("an unmatched parameter is gray only when the contact is at a vertex whose two neighbours lie on the same side of the line (graze) or at an end vertex; a transversal crossing through a vertex must be reported");
     let cs = cases(tier);
     let l = sweep(&cs, judge);
